@@ -30,10 +30,10 @@ Dispatch ==
   \/ Line.a = "Assign"     /\ Assign(A.w, A.m, A.x)
   \/ Line.a = "Reset"      /\ Reset(A.w)
   \/ Line.a = "ResetPtr"   /\ ResetPtr(A.w, A.m, A.x, A.off, A.len)
-  \/ Line.a = "Resize"     /\ Resize(A.w, A.n)
+  \/ Line.a = "Resize"     /\ Resize(A.w, A.n, A.self)
   \/ Line.a = "Write"      /\ Write(A.w, A.i)
   \/ Line.a = "Destroy"    /\ Destroy(A.w)
-  \/ Line.a = "SrcMake"    /\ SrcMake(A.s, Len(A.vals))
+  \/ Line.a = "SrcMake"    /\ \E p \in Palettes : SrcMake(A.s, CLen(A.runs), p)
   \/ Line.a = "SrcWrite"   /\ SrcWrite(A.s, A.i)
   \/ Line.a = "SrcResize"  /\ SrcResize(A.s, A.n)
   \/ Line.a = "SrcDestroy" /\ SrcDestroy(A.s)
@@ -41,8 +41,7 @@ Dispatch ==
 TStep  == l <= N /\ ~IsSep /\ Dispatch /\ last'.arg = A /\ ObsMatches /\ l' = l + 1
 TReset == /\ l <= N /\ IsSep /\ l' = l + 1
           /\ wr' = [w \in Slots |-> DeadW] /\ src' = [s \in Srcs |-> DeadS] /\ bufs' = [b \in Bufs |-> Free]
-          /\ last' = [a |-> "Init", arg |-> <<>>, cls |-> "", ns |-> NV + NA, dang |-> [w \in Slots |-> FALSE],
-                      exp |-> Obs([w \in Slots |-> DeadW], [s \in Srcs |-> DeadS], [b \in Bufs |-> Free])]
+          /\ last' = InitLast
 TNext  == TStep \/ TReset
 TSpec  == TInit /\ [][TNext]_tvars
 
